@@ -27,9 +27,10 @@ CONSTANTS MaxOps,      \* bound on the number of actions in a behaviour
           Lens,        \* set of argument lengths
           Spares,      \* set of spare capacities of argument slices
           Extras,      \* growth slack explored on reallocation (subset of 0..1)
-          Variant,     \* "code" | "prepend-nocopy" | "replace-nocopy" | "append-arg-first" | "replace-inplace"
+          Variant,     \* "code" | "prepend-nocopy" | "replace-nocopy" | "append-arg-first" | "replace-inplace" | "clear-keep"
           EmitHist,    \* TRUE in the generation configuration
           EmitFilter   \* "all" | "snap": only behaviours in which a result of All() is held across a Replace
+                       \* | "clear": ... across a Clear that is followed by an Append
 
 VARIABLES heap, d, args, shadow, model, fresh, hist, snap
 
@@ -128,7 +129,8 @@ DoReplace(i, extra) ==
 DoClear ==
   /\ snap' = snap
   /\ CanStep
-  /\ d' = Nil /\ model' = <<>>
+  /\ d' = (IF Variant = "clear-keep" THEN [d EXCEPT !.len = 0] ELSE Nil)     \* wrong: *d = (*d)[:0]
+  /\ model' = <<>>
   /\ UNCHANGED <<heap, args, shadow, fresh>>
   /\ Log(Rec("Clear", 0, 0))
 
@@ -190,5 +192,7 @@ TypeOK == /\ d.len <= d.cap
 -----------------------------------------------------------------------------
 (* behaviour emission for replay (generation configuration only) *)
 HeldAcrossReplace == \E j \in DOMAIN hist : hist[j].op = "All" /\ \E k \in (j + 1)..Len(hist) : hist[k].op = "Replace" /\ hist[k].arg # 0
-Emit == (EmitHist /\ Len(hist) = MaxOps /\ (EmitFilter = "all" \/ HeldAcrossReplace)) => PrintT("BEH " \o ToJson(hist))
+HeldAcrossClear == \E j \in DOMAIN hist : hist[j].op = "All" /\ \E k \in (j + 1)..Len(hist) : hist[k].op = "Clear"
+                        /\ \E m \in (k + 1)..Len(hist) : hist[m].op = "Append" /\ hist[m].arg # 0
+Emit == (EmitHist /\ Len(hist) = MaxOps /\ (EmitFilter = "all" \/ (EmitFilter = "snap" /\ HeldAcrossReplace) \/ (EmitFilter = "clear" /\ HeldAcrossClear))) => PrintT("BEH " \o ToJson(hist))
 =============================================================================
